@@ -117,7 +117,7 @@ impl<'a> Decoder<'a> {
             STRING_TAG => {
                 let offset = jentry.length as usize;
                 let string = &self.buf.get(..offset).ok_or(Error::InvalidUtf8)?;
-                let s = unsafe { std::str::from_utf8_unchecked(string) };
+                let s = std::str::from_utf8(string).map_err(|_| Error::InvalidUtf8)?;
                 self.buf = &self.buf[offset..];
                 Ok(Value::String(Cow::Borrowed(s)))
             }
@@ -167,7 +167,7 @@ impl<'a> Decoder<'a> {
         // decode all values
         for _ in 0..length {
             let key = keys.pop_front().unwrap();
-            let k = key.as_str().unwrap();
+            let k = key.as_str().ok_or(Error::InvalidJsonbJEntry)?;
             let jentry = jentries.pop_front().unwrap();
             let value = self.decode_scalar(jentry)?;
             obj.insert(k.to_string(), value);
